@@ -534,10 +534,11 @@ if x == nil { return nil }`
 	c.wl("case *", pname, ":")
 	c.wl("origin = x.(*", pname, ")")
 	c.wl("case **", pname, ":")
-	c.wl("origin = *x.(**", pname, ")")
+	c.wl("if p := x.(**", pname, "); p != nil { origin = *p }")
 	c.wl("default:")
 	c.wl("return inspector.ErrUnsupportedType")
 	c.wl("}")
+	c.wl("if origin == nil { return inspector.ErrUnsupportedType }")
 	err = c.writeNodeReset(node, "origin", 0)
 	if err != nil {
 		return err
